@@ -215,13 +215,19 @@ def _idx(shape):
 
 UFUNCS = {"add": np.add, "sub": np.subtract, "mul": np.multiply, "div": np.divide,
           "neg": np.negative, "abs": np.absolute, "pos": np.positive}
-IOPS = {"add": operator.iadd, "sub": operator.isub, "mul": operator.imul, "div": operator.itruediv}
+IOPS = {"add": operator.iadd, "sub": operator.isub, "mul": operator.imul, "div": operator.itruediv,
+        "mod": operator.imod}
+DIVUFUNCS = {"mod": np.remainder, "divmod": np.divmod, "floordiv": np.floor_divide}
 
 
 def run_arith(rc):
-    """form "op": out of place; "iop": in-place operator on the phase (p += x);
-    "out": the ufunc with out= a Phase target (real or imaginary, stale content).
-    For iop / out the *target object after the call* is the result that is judged."""
+    """form "op": out of place; "iop": in-place operator on the phase (p += x,
+    p %= d); "out": the ufunc with out= a separate Phase target (real or
+    imaginary, stale content); for remainder / divmod also "outself" (out= the
+    dividend itself) and "outdiv" (out= the Phase divisor); divmod and
+    floor_divide get a plain array or a dimensionless Quantity for the quotient.
+    For every in-place / out= form the *target object after the call* is the
+    result that is judged."""
     u, Angle, Phase = lib()
     op = rc["op"]
     ord_ = rc.get("ord", "po")
@@ -252,20 +258,42 @@ def run_arith(rc):
         args = [x.obj for x in ops]
         call = (lambda: fn(*args))
         other = o.kind
-        if op not in UFUNCS:
+        if op in DIVUFUNCS:
+            if op == "floordiv" and form != "op":
+                form = "out"              # the quotient is a number: only a separate array can receive it
+            elif op == "divmod" and form == "iop":
+                form = "outself"
+        elif op not in UFUNCS:
             form = "op"
     shape = np.broadcast_shapes(*[o.shape for o in ops])
-    if form == "iop" and (ord_ != "po" or tuple(shape) != tuple(p.shape)):
-        form = "out"                      # an in-place operator cannot grow its left operand
+    if form in ("iop", "outself") and (ord_ != "po" or tuple(shape) != tuple(p.shape)):
+        form = "out"                      # an in-place operation cannot grow its left operand
+    if form == "outdiv" and (ord_ != "po" or o.kind not in ("phase", "phasearr") or tuple(shape) != tuple(o.shape)):
+        form = "out"
     if form == "iop":
         call = (lambda: IOPS[op](p.obj, o.obj))            # returns the (same) left operand
-    elif form == "out":
-        z = np.zeros(shape) + 0.25                         # stale content, of either kind
-        target = make_phase({"i": [hx(v) for v in z.reshape(-1)], "f": [hx(0.125)] * max(1, z.size),
-                             "im": bool(rc.get("tim")), "shape": list(shape) if shape else None})
+    elif form != "op":
+        if form == "outself":
+            target = p.obj
+        elif form == "outdiv":
+            target = o.obj
+        elif op != "floordiv":
+            z = np.zeros(shape) + 0.25                     # stale content, of either kind
+            target = make_phase({"i": [hx(v) for v in z.reshape(-1)], "f": [hx(0.125)] * max(1, z.size),
+                                 "im": bool(rc.get("tim")), "shape": list(shape) if shape else None})
+        if op in ("divmod", "floordiv"):
+            qt = np.full(shape, -77.0)
+            if rc.get("qq"):
+                qt = qt * u.dimensionless_unscaled
 
         def call():
-            UFUNCS[op](*args, out=target)
+            if op == "floordiv":
+                np.floor_divide(*args, out=qt)
+                return qt
+            if op == "divmod":
+                np.divmod(*args, out=(qt, target))
+                return qt, target
+            (DIVUFUNCS.get(op) or UFUNCS[op])(*args, out=target)
             return target
     exc = None
     try:
@@ -605,8 +633,9 @@ def describe(ev, clauses):
     if k in ("arith", "divmod", "cmp"):
         s = "%s %s %s [%s operand: %s%s] -> %s" % (val(ev["l"]), ev["op"], val(ev["r"]) if "r" in ev else "",
                                                     ev["ord"], ev["other"],
-                                                    {"iop": ", in-place operator", "out": ", out= Phase target"}.get(
-                                                        ev.get("form"), ""), rs)
+                                                    {"iop": ", in-place operator", "out": ", out= separate target",
+                                                     "outself": ", out= the left operand itself",
+                                                     "outdiv": ", out= the Phase divisor"}.get(ev.get("form"), ""), rs)
         if ev.get("construct"):
             s = "while preparing operands for %s: Phase(%s, %s) -> %s" % (ev.get("stage"), val(ev["l"]), val(ev["r"]), rs)
         if "q" in ev:
